@@ -56,6 +56,9 @@ def gen(rng):
             if any(s_[1].endswith('/files/' + nm) for s_ in steps):
                 nm = 'ent%d' % i
         kind = rng.choice(['file', 'dir', 'link', 'deep'])
+        if kind == 'link' and rng.random() < 0.5:
+            # a link whose (absolute) target exists - a file or a directory that was never trashed: the entry is the link
+            kind = rng.choice(['link_absfile', 'link_absdir'])
         # original location: same volume as the trash dir, or (for restore) another one
         if cmd == 'trash-restore' and rng.random() < 0.35 and L['vols']:
             other = rng.choice([v for v in ['/'] + L['vols'] if v != (top or ML.volume_of(['/'] + L['mounts'], tdir))] or ['/'])
@@ -95,6 +98,17 @@ def gen(rng):
         G.add_trashed(steps, tdir, 'entabyss', TG.pct(home + '/w/entabyss'), '2011-01-01T00:00:00', 'dir', tag='abyss')
         steps.append(['d', tdir + '/files/entabyss' + '/d' * 1100, 0o755])
         abyss = True
+    faults = []
+    if cmd == 'trash-empty' and rng.random() < 0.05:
+        # an entry that cannot be removed (a read-only sub-directory, as in a Go module cache: unlinking inside it is EACCES for
+        # an ordinary user - emulated by a condition) next to an entry called <its name>.trashinfo: what is kept for the first
+        # must not cost the second its record
+        tdir = locs[0][0]
+        G.add_trashed(steps, tdir, 'entro', TG.pct(home + '/w/entro'), '2011-01-01T00:00:00', 'dir', tag='ro')
+        steps.append(['d', tdir + '/files/entro/ro-sub', 0o555])
+        steps.append(['f', tdir + '/files/entro/ro-sub/pinned', 'cannot be unlinked', 0o444])
+        faults.append({'kind': 'cond', 'what': 'dir_not_writable', 'dir': tdir + '/files/entro/ro-sub'})
+        G.add_trashed(steps, tdir, 'entro.trashinfo', TG.pct(home + '/w/entro.trashinfo'), '2011-01-02T00:00:00', rng.choice(['file', 'dir']), tag='ro-ti')
     many = 0
     if cmd in ('trash-empty', 'trash-rm') and rng.random() < 0.01:
         # hundreds or thousands of entries in one trash directory, just past a round number: an implementation that works in
@@ -127,6 +141,7 @@ def gen(rng):
         'dirsalt': rng.randrange(1 << 30),
         'clock': {'start': '2025-03-03T03:03:03.000000'},
         'note': {'cmd': cmd, 'cross': cross, 'many': many, 'occupied': occupied},
+        'faults': faults,
     }
     if many:
         case_['crash_sample'] = 4
@@ -193,6 +208,14 @@ def check(sim, case, st):
                                                                            'cross' if note.get('cross') else 'same')
                     res.append((sig, 'at the end of the undisturbed run payload %s/files/%s is still there but its .trashinfo is gone (argv %r stdin %r)'
                                 % (e.tdir, e.name, spec['argv'], spec.get('stdin'))))
+                if rt is not None and cmd == 'trash-restore' and e.has_payload and e.location and not note.get('occupied'):
+                    want = OR.payload_tree(before, e)
+                    if not Wd.same_tree(want, Wd.subtree(snap, rt + '/files/' + e.name)) and not Wd.same_tree(want, Wd.subtree(snap, e.location)):
+                        pt = want.get('')
+                        res.append(('C15/restored-entry-torn/%s/%s/%s/end' % (cmd, {'f': 'file', 'd': 'dir', 'l': 'symlink'}.get(pt[0], 'x') if pt else 'nopayload',
+                                                                          'cross' if note.get('cross') else 'same'),
+                                    'at the end of the undisturbed run entry %r is complete neither in the trash nor at %r (argv %r stdin %r, exit %s)'
+                                    % (e, e.location, spec['argv'], spec.get('stdin'), r.exit)))
             if note.get('many'):
                 st.probes['thousands-of-entries'] += 1
             if note.get('cross'):
